@@ -21,5 +21,6 @@ Fixpoint cfg_eval (enabled : list string) (e : cfgexpr) : bool :=
   | CAny l => existsb (cfg_eval enabled) l
   end.
 
-(** the five conversion macros of src/newtype_macros.rs *)
-Inductive conv_kind := FromNN | FromNP | FromPN | TryNN | TryPN.
+(** the conversion macros of src/newtype_macros.rs *)
+(** TrySPN: TryFrom a signed primitive whose non-negative range fits (added by the D2 repair) *)
+Inductive conv_kind := FromNN | FromNP | FromPN | TryNN | TryPN | TrySPN.
